@@ -122,6 +122,14 @@ type WorkerResult struct {
 	WallS     float64           `json:"wall_s"`
 }
 
+// RaceHarness is implemented by harnesses that have a race-detector stage: seeded concurrent plans run
+// in the -race build whose task hand-off is hidden from the detector; a report counts only if the
+// stacks of BOTH accesses contain a frame matching one of RaceFrames (package path fragments).
+type RaceHarness interface {
+	RacePlan(seed uint64, i int) json.RawMessage
+	RaceFrames() []string
+}
+
 func PlanSeed(seed uint64, id string, index int) uint64 {
 	return simrt.Mix(simrt.Mix(seed, simrt.HashString(id)), uint64(index)+1)
 }
